@@ -361,6 +361,21 @@ pub fn contract_max_restrictive<C: Ctx>(cx: &mut C) {
     vob!(cx, "C06.max_restrictive.commutative", r == b.max_restrictive(a));
 }
 
+/// C06 — const vs lazy rendering (`ASN1Value::is_const_type`, generator/rasn/utils.rs): an integer literal is emitted as a
+/// `const` of its fixed-width type exactly when its governing type is not the arbitrary-precision Integer (an `Integer`
+/// cannot be built in a const context: those go through `LazyLock` + `Integer::from(<v>i128)`), whatever the value;
+/// BOOLEAN / NULL values are always const; wrappers of supertypes and CHOICE alternatives inherit the answer.
+pub fn contract_value_is_const<C: Ctx>(cx: &mut C) {
+    let t = any_inttype(cx);
+    let v = cx.any_i128();
+    let lit = ASN1Value::LinkedIntValue { integer_type: t, value: v };
+    vcover!(cx, "C06.is_const.cover_unbounded", t == IntegerType::Unbounded);
+    vob!(cx, "C06.is_const.integer_literal_is_const_iff_fixed_width", lit.is_const_type() == (t != IntegerType::Unbounded));
+    let b = cx.any_bool();
+    vob!(cx, "C06.is_const.boolean_and_null_are_const", ASN1Value::Boolean(b).is_const_type() && ASN1Value::Null.is_const_type());
+    vob!(cx, "C06.is_const.plain_integer_is_not_const", !ASN1Value::Integer(v).is_const_type());
+}
+
 const WELL_KNOWN_ROWS: &[(Option<u8>, &str, u128)] = &[
     // X.680 §32 / X.660 Annex A: top-level arcs are recognised under any root position
     (None, "itu-t", 0), (None, "iso", 1), (None, "joint-iso-itu-t", 2), (None, "joint-iso-ccitt", 2),
@@ -416,6 +431,7 @@ mod kani_harness {
     #[kani::proof] fn k_c03_asn_tag_from() { contract_asn_tag_from(&mut KaniCtx) }
     #[kani::proof] fn k_c03_module_header_from() { contract_module_header_from(&mut KaniCtx) }
     #[kani::proof] fn k_c06_max_restrictive() { contract_max_restrictive(&mut KaniCtx) }
+    #[kani::proof] fn k_c06_value_is_const() { contract_value_is_const(&mut KaniCtx) }
     #[kani::proof] #[kani::unwind(40)] fn k_c07_well_known() { contract_well_known(&mut KaniCtx) }
     #[kani::proof] #[kani::unwind(40)] fn k_c07_unknown_arc_names() { contract_well_known_negative(&mut KaniCtx) }
 
@@ -451,6 +467,7 @@ pub fn replay(unit: &str, bytes: Option<Vec<Vec<u8>>>) -> i32 {
         "k_c03_asn_tag_from" => go!(contract_asn_tag_from),
         "k_c03_module_header_from" => go!(contract_module_header_from),
         "k_c06_max_restrictive" => go!(contract_max_restrictive),
+        "k_c06_value_is_const" => go!(contract_value_is_const),
         "k_c07_well_known" => go!(contract_well_known),
         "k_c07_unknown_arc_names" => go!(contract_well_known_negative),
         "k_c04_add_assign" => go!(crate::intermediate::encoding_rules::per_visible::verif_hook::contract_add_assign),
